@@ -95,6 +95,11 @@ def _worker(args):
     }
     i = start
     armed_at = 0.0
+    # checks of native code (C04): remember which run is executing, so that a run that kills the
+    # interpreter (SIGSEGV, sanitizer abort) can be attributed and replayed by the parent
+    cur_path = None
+    if getattr(mod, "CRASH_IS_VIOLATION", False) and os.environ.get("VERIF_PROGRESS_DIR"):
+        cur_path = os.path.join(os.environ["VERIF_PROGRESS_DIR"], "%d.cur" % os.getpid())
     while i < n_max and time.time() < deadline:
         seed = derive_seed(master, i)
         i += stride
@@ -103,6 +108,9 @@ def _worker(args):
         if time.time() - armed_at > 5.0:
             faulthandler.dump_traceback_later(180, exit=True)
             armed_at = time.time()
+        if cur_path is not None:
+            with open(cur_path, "w") as f:
+                f.write("%d %s" % (seed, variant))
         try:
             out = mod.run_one(seed, tier=tier, variant=variant)
         except HarnessError as e:  # pragma: no cover
@@ -142,6 +150,11 @@ def _worker(args):
                 agg.setdefault("violations_dropped", 0)
                 agg["violations_dropped"] = agg.get("violations_dropped", 0) + 1
     faulthandler.cancel_dump_traceback_later()
+    if cur_path is not None:
+        try:
+            os.unlink(cur_path)
+        except OSError:
+            pass
     agg["sigs"] = list(agg["sigs"])
     agg["states"] = list(agg["states"])
     return agg
@@ -231,7 +244,7 @@ def write_replay(mod, seed, tier, variant, out, minimised, tries):
         "property": mod.PROPERTY, "check": mod.NAME, "module": mod.__name__, "tier": tier, "variant": variant,
         "seed": seed, "violation": out.violation, "choices": out.choices, "digest": out.summary.get("digest"),
         "minimised": minimised, "shrink_attempts": tries, "code": bootstrap.code_identity(),
-        "n_choices": sum(len(v) for v in out.choices.values()),
+        "n_choices": sum(len(v) for v in out.choices.values()) if out.choices else 0,
         "readable": out.sample,
     }
     with open(path, "w") as f:
@@ -253,6 +266,21 @@ def replay_file(path):
 
     with open(path) as f:
         doc = json.load(f)
+    if doc["violation"].get("discriminator") == "interpreter-died" and not os.environ.get("VERIF_REPLAY_INNER"):
+        # the run is expected to kill the interpreter: execute it in a child and judge the child's fate
+        env = dict(os.environ, VERIF_REPLAY_INNER="1")
+        r = subprocess.run([sys.executable, os.path.join(VERIF, "cli.py"), "--replay", path], env=env,
+                           capture_output=True, text=True, timeout=900)
+        if r.returncode < 0 or r.returncode > 128 or "AddressSanitizer" in r.stderr:
+            tail = [l for l in (r.stderr or "").splitlines() if "ERROR" in l or "Fatal" in l or "SEGV" in l][:1]
+            print("REPRODUCED property=%s %s child exit status %d" % (doc["property"], sig_of(doc["violation"]),
+                                                                     r.returncode))
+            print("  the run killed the interpreter%s" % ((": " + tail[0][:200]) if tail else ""))
+            print("VIOLATION property=%s replay=%s" % (doc["property"], path))
+            return 1
+        print("NOT-REPRODUCED property=%s wanted=%s got=child exit status %d" % (
+            doc["property"], sig_of(doc["violation"]), r.returncode))
+        return 3
     mod = importlib.import_module(doc["module"])
     out = mod.run_one(doc["seed"], tier=doc["tier"], variant=doc.get("variant"), replay=doc["choices"])
     want = sig_of(doc["violation"])
@@ -265,6 +293,44 @@ def replay_file(path):
     print("NOT-REPRODUCED property=%s wanted=%s got=%s" % (
         doc["property"], want, sig_of(out.violation) if out.violation else None))
     return 3
+
+
+def _attribute_crash(mod, tier, progress_dir):
+    """A worker process died. For every run that was executing in some worker at that moment, re-execute
+    it alone in a fresh interpreter: a run that kills the interpreter again is a violation of a
+    memory-safety property (replay file = the seed, nothing else is known). None = not attributable."""
+    import shutil
+
+    cands = []
+    for fn in sorted(os.listdir(progress_dir)):
+        try:
+            seed, variant = open(os.path.join(progress_dir, fn)).read().split(" ", 1)
+            cands.append((int(seed), None if variant == "None" else variant))
+        except (OSError, ValueError):
+            pass
+    shutil.rmtree(progress_dir, ignore_errors=True)
+    for seed, variant in cands:
+        out = Outcome(seed)
+        out.violation = {"oracle": "%s.crash" % mod.NAME, "discriminator": "interpreter-died",
+                         "message": "the run with this seed (variant %s) kills the interpreter" % variant}
+        out.choices = None
+        out.summary = {}
+        out.sample = {"seed": seed, "variant": variant}
+        path = write_replay(mod, seed, tier, variant, out, False, 0)
+        ok, log = verify_replay(path)
+        if ok:
+            sig = sig_of(out.violation)
+            print("  %s: %s" % (sig, log.strip().splitlines()[-2][:300] if len(log.strip().splitlines()) > 1 else ""))
+            print("VIOLATION property=%s replay=%s" % (mod.PROPERTY, path))
+            write_evidence(mod, tier, 0, {
+                "runs": 0, "fired": Counter(), "reasons": Counter(), "probes": Counter(), "sim_time": 0.0, "steps": 0,
+                "sigs": set(), "violations": [], "known_hits": Counter(), "samples": [], "inconclusive": 0,
+                "aborted": 0, "states": set(), "extra": Counter()}, 0.0, 0.0, [
+                {"signature": sig, "seed": seed, "replay": path, "count": 1,
+                 "message": out.violation["message"], "minimised": False}], 0)
+            return 1
+        os.unlink(path)
+    return None
 
 
 # ------------------------------------------------------------------------ batch
@@ -288,14 +354,27 @@ def run_check(mod, tier, master_seed, jobs=None, budget_s=None, n_max=None):
             tasks.append((mod.__name__, tier, master_seed * 1000 + vi, w, per_variant_jobs, n_max // len(variants),
                           deadline, variant))
     aggs = []
+    progress_dir = None
+    if getattr(mod, "CRASH_IS_VIOLATION", False):
+        import tempfile
+
+        progress_dir = tempfile.mkdtemp(prefix="progress-", dir=os.path.join(VERIF, ".cache"))
+        os.environ["VERIF_PROGRESS_DIR"] = progress_dir
     with concurrent.futures.ProcessPoolExecutor(max_workers=min(jobs, len(tasks)), mp_context=ctx) as ex:
         futs = [ex.submit(_worker, t) for t in tasks]
         for f in futs:
             try:
                 aggs.append(f.result(timeout=budget_s + 300))
-            except Exception as e:  # worker died: harness error, never a verdict
+            except Exception as e:  # worker died: harness error, never a verdict ...
+                rc = _attribute_crash(mod, tier, progress_dir) if progress_dir else None
+                if rc is not None:  # ... unless the check is about native code and a run reproducibly kills it
+                    return rc
                 print("HARNESS-ERROR worker failed: %r" % (e,))
                 return 2
+    if progress_dir:
+        import shutil
+
+        shutil.rmtree(progress_dir, ignore_errors=True)
     total = {
         "runs": 0, "fired": Counter(), "reasons": Counter(), "probes": Counter(), "sim_time": 0.0, "steps": 0,
         "sigs": set(), "violations": [], "known_hits": Counter(), "samples": [], "inconclusive": 0, "aborted": 0,
